@@ -119,6 +119,10 @@ EXTRA_PAIRS = [
     ("MD4", ["C04"]),    # deleting a directory frees clusters an open directory handle still refers to: later writes through it land in other files' data
     ("CB1", ["C15"]),    # where the data area's clusters are: files placed by another formatter are found only if cluster n is at first_data_block + (n-2)*blocks_per_cluster
     ("MD8", ["C03"]),    # an append handle whose cursor does not name the cluster of its offset writes into the wrong cluster and records a length the chain does not cover
+    # --- round 13
+    ("IX1", ["C06"]),    # a lookup that indexes the directory table with another table's index searches a different directory: names that exist are not found, duplicates get created
+    ("FC2", ["C09", "C10"]),   # a chain released for anything but the looked-up entry of a delete / truncate takes clusters away from files that were flushed long ago
+    ("FL1", ["C11"]),    # a flush that panics for a dirty file of length 0 leaves a handle that can be neither flushed nor closed
 ]
 EXTRA = {}
 for _k, _v in EXTRA_PAIRS:      # a rule may be listed several times (one line per reason): the lists add up
